@@ -250,6 +250,16 @@ def run_case(case):
                     if rep == 0:
                         first_result = ("ok", val)
                     labels.add("returned")
+                    # the result is cached now: a negative timeout is still refused
+                    for neg in (-1, -0.001):
+                        try:
+                            r_ = obj.wait(neg)
+                        except ValueError:
+                            continue
+                        except BaseException as e:  # noqa: BLE001
+                            raise Violation("invalid-timeout", f"{desc}; then wait({neg}) raised {e!r}") from None
+                        raise Violation("invalid-timeout",
+                                        f"{desc}; then wait({neg}) returned {r_!r} instead of raising ValueError")
                 elif isinstance(exc, psutil.TimeoutExpired):
                     if timeout is None:
                         raise Violation("timeout-without-timeout", desc)
